@@ -163,6 +163,21 @@ type ExtJ struct {
 	NoInjector bool              `json:"noInjector"`
 	NoBlockio  bool              `json:"noBlockio"`
 	NoRdt      bool              `json:"noRdt"`
+	// the runtime's callbacks (generate.WithAnnotationFilter / WithResourceChecker); nil = option not given
+	Filter *CallbackJ `json:"filter,omitempty"`
+	Check  *CallbackJ `json:"check,omitempty"`
+}
+
+// CallbackJ describes one of the two callbacks by a small vocabulary the Lean driver interprets
+// the same way (lean/Driver/C13.lean: filterOf, checkerOf).
+//
+//	filter: nop | drop (entries whose raw key starts with Arg) | reject (error when such a key is present)
+//	check:  ok | fail | failPidsGt (error when pids limit > N) | capShares (cpu shares := min(shares, N))
+//	        | setPids (pids limit := N) | clearUnified (unified := empty)
+type CallbackJ struct {
+	Kind string `json:"kind"`
+	Arg  string `json:"arg"`
+	N    int64  `json:"n"`
 }
 
 type In struct {
@@ -174,13 +189,19 @@ type In struct {
 }
 
 type OutJ struct {
-	Err  string `json:"err"` // "" | cdi | blockio | rdt | other | panic
+	Err  string `json:"err"` // "" | cdi | blockio | rdt | filter | check | other | panic
 	Spec SpecJ  `json:"spec"`
 	N    int    `json:"n"` // how many of the runs gave exactly this
+	// the resource checker callback: how often it ran and the spec as it stood when it ran
+	CheckCalls int    `json:"checkCalls"`
+	CheckSaw   *SpecJ `json:"checkSaw,omitempty"`
+	CheckNil   bool   `json:"checkNil"` // the checker was handed a nil *LinuxResources
+	// the annotation filter callback: how often it ran
+	FilterCalls int `json:"filterCalls"`
 }
 
 type Obs struct {
-	Outs     []OutJ `json:"outs"`     // distinct results over all runs, sorted by their JSON
+	Outs     []OutJ `json:"outs"` // distinct results over all runs, sorted by their JSON
 	Runs     int    `json:"runs"`
 	RestSame bool   `json:"restSame"` // the unmodelled rest of the spec is byte-identical before/after in every run
 	Panic    string `json:"panic"`
